@@ -117,6 +117,33 @@ fn family(w: &W, db: &Db) -> Vec<(String, Vec<u8>, u64)> {
             }
         }
     }
+    // every key in turn written with 0 ("unset": several parameters fall back to another key), 1 and MAX on the populated
+    // base, for open / closed markets with and without the closed-market parameter set
+    for closed in [false, true] {
+        for params in [false, true] {
+            for (ki, key) in prog::market::config::MarketConfigKey::iter().enumerate() {
+                for (vi, value) in [0u128, 1, u128::MAX].into_iter().enumerate() {
+                    // MAX only for the closed-parameter market (keeps the quick tier small)
+                    if vi == 2 && !(closed && params) {
+                        continue;
+                    }
+                    out.push((
+                        format!("populated, closed {closed}, closed params {params}, key {key} = {value}"),
+                        edit(&|m| {
+                            populate(m);
+                            m.set_flag(gmsol_utils::market::MarketFlag::Closed, closed);
+                            let _ = m.set_config_flag("enable_market_closed_params", params);
+                            if let Ok(v) = m.get_config_mut(&key.to_string()) {
+                                *v = value;
+                            }
+                            let _ = ki;
+                        }),
+                        supply,
+                    ));
+                }
+            }
+        }
+    }
     // pools populated with distinct values through the revertible market
     let mut d2 = db.clone();
     w.edit_market(&mut d2, &w.m1, |rm| {
